@@ -11,6 +11,11 @@
   Full statement: `FullStatement` below.  It is FALSE of fea-rs as it is: the anonymous lookups of
   contextual rules are shared between rules in ways that change what a rule does (three defects,
   `not_FullStatement`, replayed on the real compiler by stream `c11x`).  What is proved:
+    * `compile_correct`: for every program of a decidable fragment (`Fragment.ok`: language systems,
+      named lookup blocks, lookup references, `script` / `language` statements with `exclude_dflt`,
+      lookup flags, all substitution types incl. contextual rules with in-line single / multiple
+      replacements, single positioning), every feature set and EVERY glyph string,
+      `shape (compile p) = interp p`;
     * per lookup type, the subtables fea-rs builds act at every position of every string like the
       first matching source rule (`compile_correct_lookup_*`), lookup flags included
       (`lookup_flags_correct`);
@@ -24,6 +29,7 @@ import FontcProofs.FeaFlags
 import FontcProofs.FeaGlue
 import FontcProofs.FeaCorrectFlat
 import FontcProofs.FeaChainCorrect
+import FontcProofs.FeaFragment
 
 namespace Fontc.C11
 open Fontc.FeaCompile
@@ -234,6 +240,71 @@ example (feats : List Tag) (alt : Nat) (str : List Glyph) :
     shape (compile exProg) "latn" "dflt" feats alt str = interp exProg "latn" "dflt" feats alt str :=
   compile_correct_flat {} exProg exLs exFs [[13]] rfl exProg_bodies exProg_entries (by decide) (by decide) (by decide)
     "latn" "dflt" (by decide) feats alt str
+
+/-- **`compile_correct`** — the whole pipeline, every string, for every program of the fragment.
+
+    `Fragment.ok p` (a computation on the program, `FontcProofs/FeaFragment.lean`) asks:
+    * top level: `languagesystem` statements first, then named lookup blocks and feature blocks;
+    * a lookup block is `lookupflag` statements followed by rules of one type; names are defined once
+      and before they are referenced;
+    * inside a feature block: `lookupflag`, rules, lookup blocks, `lookup NAME;` references,
+      `script S;` (each script once), `language L [exclude_dflt];` (after a `script` statement, each
+      language of a script once, not `dflt`), every language system entered being a declared one;
+      no single-substitution rule next to a multiple / ligature rule under one flag outside a lookup
+      block (fea-rs merges those);
+    * `lookupflag` classes are sorted sets, mark attachment classes pairwise disjoint, GDEF entries
+      distinct;
+    * every lookup (`Src.entries p`) is of a type whose lookup-level theorem is proved (`runOkB`):
+      single / multiple / alternate substitution and single positioning without a glyph targeted twice,
+      ligature substitution without a sequence given twice, contextual substitution whose rules carry
+      an in-line single or multiple replacement, or none, or are `ignore` rules, class → glyph in-line
+      replacements agreeing with earlier ones of the lookup (otherwise: defect F-C11-1).
+    `Fragment.langOkB`: the request names the default language of a script, or a language for which
+    each table either has a record or has none for the script's default either (an OpenType client
+    falls back to the default language system when the record is missing; see "assumptions").
+    Outside the fragment (not proved, checked by the streams only): pair positioning, in-line ligature
+    replacements and explicit `lookup` references in contextual rules, `mixed-run` merging.
+    `fx = {}` is fea-rs as it is (`compile p = compileWith {} p`); the theorem also holds of the
+    repaired compilers. -/
+theorem compile_correct (fx : Cmp.Fixes) (p : Program) (hok : Fragment.ok p = true)
+    (script lang : Tag) (hlang : Fragment.langOkB (Src.entries p) script lang = true)
+    (feats : List Tag) (alt : Nat) (str : List Glyph) :
+    shape (compileWith fx p) script lang feats alt str = interp p script lang feats alt str :=
+  compile_correct_of_fragment fx p hok script lang hlang feats alt str
+
+/-! non-vacuity: three language systems, a top-level lookup block under `lookupflag IgnoreMarks`,
+    a `liga` feature that has a rule and a reference before `script latn;`, a lookup block, then
+    `language TRK exclude_dflt;` with a second reference and a multiple substitution, and a `kern`
+    feature with positioning before and after `script latn; language TRK;` -/
+
+def exLs2 : List (Tag × Tag) := [("DFLT", "dflt"), ("latn", "dflt"), ("latn", "TRK")]
+def exProg2 : Program :=
+  { gdef := [(1, 1), (13, 3)],
+    tops := lsTops exLs2 ++ [
+      .lookup "L1" [.flag { im := true }, .rule (.single (.g 1) (.g 2)), .rule (.single (.g 3) (.g 4))],
+      .feature "liga" [.rule (.single (.c [3, 4]) (.g 5)), .ref "L1", .script "latn",
+        .lookup "L2" [.rule (.ligature [.g 1, .g 3] 11)], .language "TRK" true, .ref "L1",
+        .rule (.multiple 6 [7, 8])],
+      .feature "kern" [.rule (.spos (.g 1) ⟨0, 0, 10, 0⟩), .script "latn", .language "TRK" false,
+        .rule (.spos (.g 2) ⟨0, 0, 5, 0⟩)]] }
+
+theorem exProg2_ok : Fragment.ok exProg2 = true := by decide
+theorem exProg2_lang : Fragment.langOkB (Src.entries exProg2) "latn" "TRK" = true := by decide
+
+/-- `compile_correct` applies to `exProg2`, for latn/TRK, any feature set, any string -/
+example (feats : List Tag) (alt : Nat) (str : List Glyph) :
+    shape (compile exProg2) "latn" "TRK" feats alt str = interp exProg2 "latn" "TRK" feats alt str :=
+  compile_correct {} exProg2 exProg2_ok "latn" "TRK" exProg2_lang feats alt str
+
+/-- what the source semantics registers in `exProg2`: `L1` for DFLT/dflt, latn/dflt and (second
+    reference) latn/TRK; the root rule not for latn/TRK (`exclude_dflt`); … -/
+theorem exProg2_regs : (Src.entries exProg2).map (fun e => (e.lookup.name, e.regs)) =
+    [(some "L1", [("liga", "DFLT", "dflt"), ("liga", "latn", "dflt"), ("liga", "latn", "TRK")]),
+     (none, [("liga", "DFLT", "dflt"), ("liga", "latn", "dflt")]),
+     (some "L2", [("liga", "latn", "dflt")]),
+     (none, [("liga", "latn", "TRK")]),
+     (none, [("kern", "DFLT", "dflt"), ("kern", "latn", "dflt"), ("kern", "latn", "TRK")]),
+     (none, [("kern", "latn", "TRK")])] := by decide
 
 /-! ### the full statement is false of fea-rs as it is (defect F-C11-1) -/
 
